@@ -241,6 +241,7 @@ ledger_kinds!(
     flush_calls,
     eof_polls,
     eintr_before_eof,
+    unflushed_bytes_lost,
     bytes_read,
     bytes_written,
 );
@@ -347,6 +348,11 @@ impl Log {
     }
 }
 
+/// A seam never answers `Interrupted` more often than this in a row: progress is
+/// guaranteed, so a consumer that retries without bound terminates, and one that gives up
+/// (or counts success) after a few retries is found out.
+pub const MAX_CONSECUTIVE_EINTR: u8 = 8;
+
 /// Payload of the sentinel unwind that stops a consumer which exceeded its step bound.
 pub struct StepLimit {
     pub seam: char,
@@ -389,7 +395,7 @@ impl SimSource {
     pub fn new(data: Vec<u8>, cfg: &ReaderCfg, log: Rc<RefCell<Log>>) -> (SimSource, Rc<RefCell<SrcCore>>) {
         let n_eintr = cfg.eintr_at.len() as u32;
         let limit = (2 * data.len() as u32).saturating_add(n_eintr).saturating_add(64);
-        let eintr_at_eof = cfg.eintr_at_eof.min(3);
+        let eintr_at_eof = cfg.eintr_at_eof.min(MAX_CONSECUTIVE_EINTR);
         let hi = data.len();
         let core = Rc::new(RefCell::new(SrcCore {
             data,
@@ -466,7 +472,7 @@ impl Read for SimSource {
             }
         }
         // 2. interruption (at most 3 in a row, then progress)
-        if c.consecutive_eintr < 3 && c.eintr_at.binary_search(&call).is_ok() {
+        if c.consecutive_eintr < MAX_CONSECUTIVE_EINTR && c.eintr_at.binary_search(&call).is_ok() {
             c.consecutive_eintr += 1;
             log.ledger.bump(K::eintr_read);
             log.event('R', call, buf.len(), "eintr", 0);
@@ -545,8 +551,13 @@ impl Read for SimSource {
 // ---------------------------------------------------------------------------
 
 pub struct SinkCore {
-    /// Bytes accepted so far: what is on the simulated disk if no storage fault follows.
+    /// Bytes made durable by a successful `flush`: what is on the simulated disk if no
+    /// storage fault follows.
     pub disk: Vec<u8>,
+    /// Bytes accepted by `write` but not yet flushed. They are volatile: whatever is still
+    /// here when the writer is let go of is lost (a buffering device, a page cache before
+    /// fsync, a pipe whose far end has not read yet).
+    pub pending: Vec<u8>,
     chunks: Vec<u16>,
     chunk_i: usize,
     eintr_at: Vec<u32>,
@@ -571,6 +582,7 @@ impl SimSink {
         let limit = (4 * expected_len as u32).saturating_add(n_eintr).saturating_add(256);
         let core = Rc::new(RefCell::new(SinkCore {
             disk: Vec::new(),
+            pending: Vec::new(),
             chunks: cfg.chunks.clone(),
             chunk_i: 0,
             eintr_at: cfg.eintr_at.clone(),
@@ -617,10 +629,11 @@ impl Write for SimSink {
                 }
                 At::Byte(b) => {
                     let b = b as usize;
-                    if c.disk.len() < b {
-                        byte_limit = b - c.disk.len();
+                    let accepted = c.disk.len() + c.pending.len();
+                    if accepted < b {
+                        byte_limit = b - accepted;
                     }
-                    c.disk.len() >= b && (e.sticky || !c.err_fired)
+                    accepted >= b && (e.sticky || !c.err_fired)
                 }
             };
             if due {
@@ -636,7 +649,7 @@ impl Write for SimSink {
                 return Err(e.kind.to_std().into());
             }
         }
-        if c.consecutive_eintr < 3 && c.eintr_at.binary_search(&call).is_ok() {
+        if c.consecutive_eintr < MAX_CONSECUTIVE_EINTR && c.eintr_at.binary_search(&call).is_ok() {
             c.consecutive_eintr += 1;
             log.ledger.bump(K::eintr_write);
             log.event('W', call, buf.len(), "eintr", 0);
@@ -655,7 +668,7 @@ impl Write for SimSink {
         if n < buf.len() {
             log.ledger.bump(K::short_write);
         }
-        c.disk.extend_from_slice(&buf[..n]);
+        c.pending.extend_from_slice(&buf[..n]);
         log.ledger.add(K::bytes_written, n as u64);
         log.event('W', call, buf.len(), "ok", n);
         Ok(n)
@@ -678,14 +691,17 @@ impl Write for SimSink {
             log.event('F', call, 0, "err", k as usize);
             return Err(k.to_std().into());
         }
-        if c.consecutive_eintr < 3 && c.flush_eintr_at.binary_search(&call).is_ok() {
+        if c.consecutive_eintr < MAX_CONSECUTIVE_EINTR && c.flush_eintr_at.binary_search(&call).is_ok() {
             c.consecutive_eintr += 1;
             log.ledger.bump(K::eintr_flush);
             log.event('F', call, 0, "eintr", 0);
             return Err(io::ErrorKind::Interrupted.into());
         }
         c.consecutive_eintr = 0;
-        log.event('F', call, 0, "ok", 0);
+        let n = c.pending.len();
+        let moved = std::mem::take(&mut c.pending);
+        c.disk.extend_from_slice(&moved);
+        log.event('F', call, 0, "ok", n);
         Ok(())
     }
 }
